@@ -304,6 +304,10 @@ def lifecycleOK (s : Core) : Option String :=
     else if (a.state == "Completed" || a.state == "Failed" || a.state == "Expired") && a.live &&
             s.queues.any (fun q => q.apps.contains a.id) then
       some s!"terminated-still-in-queue {a.id}"
+    -- an ask that arrives at a Completing application moves it back to Running; an application only becomes
+    -- Completing when it has neither asks nor allocations
+    else if a.state == "Completing" && a.items.any (fun i => i.inReq && !i.allocated) then
+      some s!"completing-with-pending-ask {a.id}"
     else none)
 
 /-- C10: an application with neither asks nor allocations does not stay Accepted / Running: it becomes Completing -/
